@@ -67,8 +67,9 @@ fn entry_names(j: &ParsedJar<ClassRepr, Vec<u8>>) -> Vec<String> { let mut v: Ve
 	let n = out.all.values().next().unwrap();
 	assert_eq!((n.class_name.to_string(), n.encl_class_name.to_string(), n.inner_name.to_string()), ("t/Y".to_owned(), "t/TH".to_owned(), "In".to_owned()));
 }
-/// outside the text of C14 (a cyclic table has no nested names): nest_jar and apply_nests_to_mappings recurse without bound and
-/// the process dies with a stack overflow instead of returning Err.  remap_nests and undo_nests_to_mappings return.
+/// outside the text of C14 (a cyclic table has no nested names): nest_jar (fn remap), apply_nests_to_mappings and
+/// undo_nests_to_mappings (MyRemapper::new / build_translation) recurse without bound and the process dies with a stack
+/// overflow instead of returning Err.  remap_nests returns.
 #[test] #[ignore] fn cyclic_table_is_answered_with_ok_or_err() {
 	let t = table(&["p/C1\tp/C2\t\t\tIn1\t0x0008", "p/C2\tp/C1\t\t\tIn2\t0x0008"]);
 	let _ = dukenest::nest_jar(true, &jar(vec![class("p/C1"), class("p/C2")]), t);
